@@ -681,19 +681,28 @@ def symlist_eq(it, a, b, excluded=()):
 
 
 # =========================================================================================== proto message equality, per field
-def term_eq_fields(schema, ta, tb, prefix=''):
+def term_eq_fields(schema, ta, tb, prefix='', guard=None):
     """[(dotted field path, formula)]: field-wise equality of two packed messages of `schema` (proto equality:
-    scalar fields equal, presence equal, repeated fields same length and same elements)."""
+    scalar fields equal, presence equal, repeated fields same length and same elements).  Fine-grained: one clause per
+    leaf, presence flags separately (`path#has`), so that quantifier-free facts stay quantifier-free."""
     reg = pm.registry()
+    g = (lambda c: c) if guard is None else (lambda c: z3.Implies(guard, c))
     if schema.fq in pm.OPAQUE_MESSAGES:
-        return [(prefix.rstrip('.') or 'value', ta == tb)]
+        return [(prefix.rstrip('.') or 'value', g(ta == tb))]
     layout = pm.msg_layout(schema)
-    acc = lambda zn, t: pm.accessor(schema, zn)(t)
+    index = {zn: k for k, (zn, _, _, _) in enumerate(layout)}
+    mk = pm._MK[schema.fq]
+
+    def acc(zn, t):
+        # accessor applied to a constructor term: take the argument (keeps terms small)
+        if z3.is_app(t) and t.num_args() == len(layout) and t.decl().eq(mk):
+            return t.arg(index[zn])
+        return pm.accessor(schema, zn)(t)
     out = []
     done = set()
     for zname, sort, role, f in layout:
         if role == 'case':
-            out.append((prefix + f, acc(zname, ta) == acc(zname, tb)))
+            out.append((prefix + f + '#case', g(acc(zname, ta) == acc(zname, tb))))
             continue
         if f.name in done:
             continue
@@ -708,39 +717,99 @@ def term_eq_fields(schema, ta, tb, prefix=''):
                 inner = z3.And(*[c for _, c in term_eq_fields(sub, aa[j], ab[j])])
             else:
                 inner = aa[j] == ab[j]
-            out.append((path, z3.And(la == lb, z3.ForAll([j], z3.Implies(z3.And(j >= 0, j < la), inner)))))
+            out.append((path + '#len', g(la == lb)))
+            out.append((path, g(z3.ForAll([j], z3.Implies(z3.And(j >= 0, j < la), inner)))))
         elif f.kind == 'message':
             sub = reg.msgs[f.type_fq]
-            inner = z3.And(*[c for _, c in term_eq_fields(sub, acc(f.name, ta), acc(f.name, tb))])
             if f.oneof:
                 case = acc('case__' + f.oneof, ta) == f.number
-                out.append((path, z3.Implies(case, inner)))
+                g2 = case if guard is None else z3.And(guard, case)
             else:
                 ha, hb = acc('has__' + f.name, ta), acc('has__' + f.name, tb)
-                out.append((path, z3.And(ha == hb, z3.Implies(ha, inner))))
+                out.append((path + '#has', g(ha == hb)))
+                g2 = ha if guard is None else z3.And(guard, ha)
+            out += term_eq_fields(sub, acc(f.name, ta), acc(f.name, tb), path + '.', g2)
         else:
             c = acc(f.name, ta) == acc(f.name, tb)
             if f.oneof:
                 c = z3.Implies(acc('case__' + f.oneof, ta) == f.number, c)
             elif f.optional:
                 ha, hb = acc('has__' + f.name, ta), acc('has__' + f.name, tb)
-                c = z3.And(ha == hb, z3.Implies(ha, c))
-            out.append((path, c))
+                out.append((path + '#has', g(ha == hb)))
+                c = z3.Implies(ha, c)
+            out.append((path, g(c)))
     return out
+
+
+def top_field(path):
+    return path.split('.')[0].split('#')[0]
+
+
+def group_by_field(clauses):
+    """[(top-level field, conjunction of its leaf clauses)] in first-appearance order"""
+    order, acc = [], {}
+    for path, c in clauses:
+        t = top_field(path)
+        if t not in acc:
+            order.append(t)
+            acc[t] = []
+        acc[t].append(c)
+    return [(t, z3.And(*acc[t]) if len(acc[t]) > 1 else acc[t][0]) for t in order]
 
 
 def msg_eq_fields(a, b):
     return term_eq_fields(a.schema, a.pack(), b.pack())
 
 
+QF_IDS, Q_IDS = set(), set()
+_KEEP = []          # keeps the classified formulas alive (z3 ast ids are reused after garbage collection)
+
+
+def classify(f, quantified):
+    (Q_IDS if quantified else QF_IDS).add(f.get_id())
+    _KEEP.append(f)
+    return f
+
+
+_orig_has_quantifier = E._has_quantifier
+
+
+def _has_quantifier(f):
+    k = f.get_id()
+    if k in QF_IDS:
+        return False
+    if k in Q_IDS:
+        return True
+    return _orig_has_quantifier(f)
+
+
+E._has_quantifier = _has_quantifier
+
+
 def msg_frame(cur_msg, entry_msg, changed):
-    """every top-level field of the message except `changed` is as at loop entry."""
-    out = []
-    for path, c in msg_eq_fields(cur_msg, entry_msg):
-        if path.split('.')[0] in changed:
-            continue
-        out.append(c)
-    return z3.And(*out) if out else z3.BoolVal(True)
+    """[(clause name, formula)]: the message is the entry message with only the top-level fields in `changed` replaced:
+    one quantifier-free datatype equation  cur == mk(entry.f1, .., cur.changed, .., entry.fk)  (repeated fields outside
+    `changed` keep length and array)."""
+    schema = cur_msg.schema
+    layout = pm.msg_layout(schema)
+    mk = pm._MK[schema.fq]
+    tc, te = cur_msg.pack(), entry_msg.pack()
+    e_is_mk = z3.is_app(te) and te.num_args() == len(layout) and te.decl().eq(mk)
+    args = []
+    for k, (zname, sort, role, f) in enumerate(layout):
+        fname = f if role == 'case' else f.name
+        owner = fname
+        if role != 'case' and f.oneof:
+            owner_names = {fname, f.oneof}
+        elif role == 'case':
+            owner_names = {fname} | set(schema.oneofs[fname])
+        else:
+            owner_names = {fname}
+        if owner_names & set(changed):
+            args.append(pm.accessor(schema, zname)(tc))
+        else:
+            args.append(te.arg(k) if e_is_mk else pm.accessor(schema, zname)(te))
+    return [('frame', classify(tc == mk(*args), False))]
 
 
 # =========================================================================================== numpy scalars used by the records
@@ -1239,7 +1308,7 @@ class AutoMap:
         ctx.F = F
         cl = []
         if self.msg is not None:
-            cl.append(('frame', msg_frame(fr.env[self.msg], ctx.entry_vals[self.msg], {self.field})))
+            cl += msg_frame(fr.env[self.msg], ctx.entry_vals[self.msg], {self.field})
         cl += [
             ('len', out.n == out0.n + i),
             ('prefix', z3.ForAll([j], z3.Implies(z3.And(j >= 0, j < out0.n), out.arr[j] == out0.arr[j]))),
@@ -1253,5 +1322,5 @@ def frame_only(msg, changed):
     def inv(it, fr, ctx):
         if msg is None:
             return []
-        return [('frame', msg_frame(fr.env[msg], ctx.entry_vals[msg], set(changed)))]
+        return msg_frame(fr.env[msg], ctx.entry_vals[msg], set(changed))
     return E.LoopSpec(inv)
